@@ -32,6 +32,8 @@ func init() {
 
 func runC02(e *Env) {
 	ruleC02Tab(e)
+	ruleC02Flags(e)
+	e.S.Floor("C02.flags", 10)
 	lits := ruleC02Long(e)
 	ruleC02Decomp(e)
 	ruleC02Alpha(e, lits)
@@ -543,6 +545,48 @@ func ruleC02Zero(e *Env) {
 			e.S.Bad(rule, flow.FnName(dp), construct, fmt.Sprintf("error is %s; empty text is zero unless the rule forbids it", t[1]), e.Pos(dp), "")
 		default:
 			e.S.Ok(rule, flow.FnName(dp), construct, map[bool]string{false: "(0, nil)", true: "(0, typed error)"}[set], e.Pos(dp))
+		}
+	}
+}
+
+// ruleC02Flags: the seven format flags are distinct single bits and the documented combinations are exactly the
+// unions their names promise (the verbs %L %l and DefaultFormat values are written in terms of them).
+func ruleC02Flags(e *Env) {
+	const rule = "C02.flags"
+	base := []string{"FormatLong4", "FormatLong40", "FormatLong400", "FormatLong9", "FormatLong90", "FormatLong900", "FormatLowerCase"}
+	val := map[string]int64{}
+	seen := map[int64]string{}
+	for _, n := range base {
+		v, ok := tabConstInt(e, "roman", n)
+		switch {
+		case !ok:
+			e.S.Unk(rule, "roman."+n, "value", "constant not found", "")
+			return
+		case bitIndex(v) < 0:
+			e.S.Bad(rule, "roman."+n, "value", fmt.Sprintf("%s = %d is not a single bit", n, v), "", "")
+		case seen[v] != "":
+			e.S.Bad(rule, "roman."+n, "value", n+" has the same bit as "+seen[v], "", "")
+		default:
+			e.S.Ok(rule, "roman."+n, "value", fmt.Sprintf("%s = 1<<%d", n, bitIndex(v)), "")
+		}
+		val[n], seen[v] = v, n
+	}
+	for _, c := range []struct {
+		name  string
+		parts []string
+	}{{"FormatLong4x", base[0:3]}, {"FormatLong9x", base[3:6]}, {"FormatLong", base[0:6]}} {
+		v, ok := tabConstInt(e, "roman", c.name)
+		want := int64(0)
+		for _, p := range c.parts {
+			want |= val[p]
+		}
+		switch {
+		case !ok:
+			e.S.Unk(rule, "roman."+c.name, "value", "constant not found", "")
+		case v != want:
+			e.S.Bad(rule, "roman."+c.name, "value", fmt.Sprintf("%s = %d, documented as the union of %v = %d", c.name, v, c.parts, want), "", "")
+		default:
+			e.S.Ok(rule, "roman."+c.name, "value", fmt.Sprintf("%s = %s", c.name, strings.Join(c.parts, "|")), "")
 		}
 	}
 }
